@@ -502,11 +502,15 @@ def sync_expiry_behind_slow_action(res, mode, slow_ms, delay_ms, act_at_ms):
     wit = {"mode": mode, "slow_ms": slow_ms, "delay_ms": delay_ms, "act_at_ms": act_at_ms,
            "config": sorted(config_of(it)), "status": it.status}
     if mode == "stop":
-        if fired:
+        # (on a loaded machine the slow action may be over, and the queued expiry handled, before this
+        #  thread gets to call stop(): only a firing AFTER the call is judged)
+        if fired and fired[0][1] <= t_act:
+            res.count("slow-action.expiry-handled-before-stop-was-called")
+        elif fired:
             res.violation("C08:queued-expiry-processed-after-stop/sync",
                           "the delayed transition ran %.1f ms after stop() was called (status then %s)" % (
                               (fired[0][1] - t_act) * 1e3, fired[0][2]), wit)
-        elif "m.t" in config_of(it):
+        elif "m.t" in config_of(it) and not fired:
             res.violation("C08:queued-expiry-processed-after-stop/sync", "configuration moved to t", wit)
     else:
         # expiry was queued BEFORE LEAVE: it is processed first, while w is still active -> must fire
